@@ -30,6 +30,14 @@ type C17Case struct {
 	IgnoreDir []string      `json:"ignoreDir"`         // files / folders excluded from analysis
 	TypeRules []C17TypeRule `json:"typeRules"`         // json route only
 	BadKind   string        `json:"badKind,omitempty"` // malformed settings variant
+	// Events: file events sent after the configuration is in force; none of them changes a file's
+	// content, so the configured view must not change either
+	Events []C17Event `json:"events,omitempty"`
+}
+
+type C17Event struct {
+	Kind string `json:"kind"` // watched-changed | open-save | open-change-close
+	File int    `json:"file"`
 }
 
 func init() { register("C17", checkC17) }
@@ -121,6 +129,10 @@ func genC17(t *rapid.T) C17Case {
 			c.TypeRules = append(c.TypeRules, C17TypeRule{File: files[i],
 				Types: rapid.SliceOfNDistinct(rapid.IntRange(1, 21), 1, 4, func(i int) int { return i }).Draw(t, "ruleTypes")})
 		}
+	}
+	for k := rapid.IntRange(0, 3).Draw(t, "nevents"); k > 0; k-- {
+		c.Events = append(c.Events, C17Event{Kind: rapid.SampledFrom([]string{"watched-changed", "open-save", "open-change-close"}).Draw(t, "eventKind"),
+			File: rapid.IntRange(0, len(c17Files)-1).Draw(t, "eventFile")})
 	}
 	if rapid.IntRange(0, 7).Draw(t, "malformed") == 0 {
 		c.BadKind = rapid.SampledFrom([]string{"bad-regexp", "broken-json", "wrong-type", "unknown-key"}).Draw(t, "badKind")
@@ -259,6 +271,17 @@ func (c *C17Case) run(env *Env, on []int, master bool, ignoreErr, ignoreDir []st
 		}
 		req.Files = append(req.Files, proto.File{Path: "luahelper.json", Data: data})
 	}
+	for _, ev := range c.Events {
+		f := c.WS.Files[ev.File]
+		switch ev.Kind {
+		case "watched-changed":
+			req.Steps = append(req.Steps, harness.Watched([2]interface{}{f.Path, 2}))
+		case "open-save":
+			req.Steps = append(req.Steps, harness.DidOpen(f.Path, f.Text), harness.DidSave(f.Path, f.Text))
+		case "open-change-close":
+			req.Steps = append(req.Steps, harness.DidOpen(f.Path, f.Text), harness.DidChangeFull(f.Path, 2, f.Text), harness.DidClose(f.Path))
+		}
+	}
 	o := env.Exec(req)
 	if o.Crash() {
 		return nil, "", violf("crash", "the server died under this configuration: %s\n%s", o.Describe(), c17Show(c))
@@ -348,6 +371,9 @@ func checkC17(c C17Case, env *Env) *Violation {
 		return violf("filter", "the diagnostics under this configuration are not the all-enabled diagnostics minus what the configuration excludes:\n%s\n%s", d, c17Show(&c))
 	}
 	env.Stats.Class("route-" + c.Route)
+	if len(c.Events) > 0 {
+		env.Stats.Class("with-file-events")
+	}
 	if len(c.IgnoreDir) > 0 {
 		env.Stats.Class("with-analysis-exclusion")
 	}
@@ -365,7 +391,7 @@ func checkC17(c C17Case, env *Env) *Violation {
 func c17Show(c *C17Case) string {
 	on := append([]int{}, c.On...)
 	sort.Ints(on)
-	return fmt.Sprintf("route=%s master=%v on=%v ignoreErr=%q ignoreDir=%q typeRules=%v bad=%q\n%s", c.Route, c.Master, on, c.IgnoreErr, c.IgnoreDir, c.TypeRules, c.BadKind, showWS(&c.WS))
+	return fmt.Sprintf("route=%s master=%v on=%v ignoreErr=%q ignoreDir=%q typeRules=%v bad=%q events=%v\n%s", c.Route, c.Master, on, c.IgnoreErr, c.IgnoreDir, c.TypeRules, c.BadKind, c.Events, showWS(&c.WS))
 }
 
 func TestC17(t *testing.T) { runProp(t, "C17", genC17, checkC17) }
